@@ -10,7 +10,7 @@ import pickle
 
 from vp import core, gen, progs, e1
 
-EXC = ["ValueError", "vlog.CustomError", "KeyboardInterrupt", "SystemExit", "GeneratorExit", "vlog.CustomBase", "KeyError", "IndexError", "AttributeError", "StopIteration", "AssertionError", "FileNotFoundError", "TypeError", "RecursionError"]
+EXC = ["ValueError", "vlog.CustomError", "KeyboardInterrupt", "SystemExit", "GeneratorExit", "vlog.CustomBase", "KeyError", "IndexError", "AttributeError", "StopIteration", "AssertionError", "FileNotFoundError", "TypeError", "RecursionError", "vlog.FalsyError", "vlog.EmptyAggregate"]
 
 
 def ancestors_and_self(p, fid):
